@@ -1086,9 +1086,13 @@ func goExprFor(_e sqlparser.Expr) (goexpr.Expr, error) {
 		return goexpr.Binary(op, left, right)
 	case *sqlparser.ColName:
 		colName := strings.TrimSpace(strings.ToLower(string(e.Name)))
-		bl, err := strconv.ParseBool(colName)
-		if err == nil {
-			return goexpr.Constant(bl), nil
+		// Only true and false are boolean literals, other spellings that
+		// strconv.ParseBool would accept (t, f) are column names
+		if colName == "true" {
+			return goexpr.Constant(true), nil
+		}
+		if colName == "false" {
+			return goexpr.Constant(false), nil
 		}
 		return goexpr.Param(colName), nil
 	case sqlparser.StrVal:
